@@ -259,6 +259,7 @@ def run_check(prop, tier, seed, spec, entries, ov, solver, workdir, t0, known):
         for (pkg, b), r in zip(shards, results):
             print("  shard %s cases=%d wall=%.1fs load=%.1fs" % (pkg, len(b), r.get("_wall", 0), r.get("load_s", 0)))
     violations, known_lines, spurious, validated, mismatches = [], [], [], 0, []
+    executor_missed = []
     nrep = 0
     for pkg, idx, kind, h, x in refs:
         rep = reports[pkg][idx]
@@ -281,7 +282,19 @@ def run_check(prop, tier, seed, spec, entries, ov, solver, workdir, t0, known):
             if rep is None or "error" in rep:
                 bad = "no native report"
             elif rep.get("failed") or rep.get("panic"):
-                bad = "native run failed (%s %s) on a path the executor passed" % (rep.get("failed"), rep.get("panic"))
+                # the real build fails the harness's own obligation on this input: that is a
+                # violation in its own right (the executor's disagreement is reported as well)
+                nrep += 1
+                rp = os.path.join(replay_dir, "%s-%d.json" % (h["func"], nrep))
+                msg = (rep.get("failed") or ["panic: " + str(rep.get("panic"))])[0]
+                fx = {"kind": "assert" if rep.get("failed") else "panic", "msg": msg, "model": x["model"]}
+                with open(rp, "w") as f:
+                    json.dump({"property": prop, "pkg": pkg, "harness": h["func"], "params": h.get("params") or {},
+                               "model": x["model"], "kind": fx["kind"], "msg": msg, "region": "",
+                               "native_report": rep, "note": "found by native replay of a path model the executor passed"}, f, indent=1)
+                violations.append((h, fx, rp))
+                executor_missed.append("%s%s: native run fails '%s' on a path the executor passed" % (h["func"], h.get("params") or "", msg))
+                continue
             elif rep.get("assume_failed") and x.get("end") == "return":
                 bad = "native run rejected an assumption the executor accepted"
             else:
@@ -384,6 +397,8 @@ def run_check(prop, tier, seed, spec, entries, ov, solver, workdir, t0, known):
             print("VIOLATION property=%s replay=%s" % (prop, rp))
             print("   harness %s%s: %s" % (h["func"], h.get("params") or "", x["msg"]))
             print("   inputs: %s" % json.dumps(trim_model(x["model"]))[:600])
+        for m in executor_missed[:5]:
+            print("note: " + m)
         return 1
     if inconclusive:
         for m in inconclusive[:20]:
